@@ -88,9 +88,9 @@ def e2e_cases(run):
     lines += gen_block.e2e_small_and_large(r, 12 if quick else 300)
     lines += gen_block.e2e_mtu(r)
     bodies = [("b1", 40, 0, 0, 1), ("b2", 40, 0, 0, 1), ("b1", 33, 0, 1, 1), ("b2", 48, 0, 1, 0)]
-    lines += gen_block.e2e_sched_exhaustive(r, ".x2", 5 if quick else 9, bodies[:2 if quick else 4])
-    lines += gen_block.e2e_sched_exhaustive(r, ".xrh", 4 if quick else 7, bodies[2:])
-    lines += gen_block.e2e_sched_random(r, 1500 if quick else 20000)
+    lines += gen_block.e2e_sched_exhaustive(r, ".x2", 5 if quick else 8, bodies[:2])
+    lines += gen_block.e2e_sched_exhaustive(r, ".xrh", 4 if quick else 6, bodies[2:])
+    lines += gen_block.e2e_sched_random(r, 1500 if quick else 12000)
     lines += gen_block.e2e_two_uploads(r, 300 if quick else 6000)
     return lines
 
@@ -117,7 +117,7 @@ def e2e(run, model):
     nbad = 0
     # correspondence: the wire traffic and the receivers' decisions against the extracted model
     mlines, mexp = [], []
-    tie_max = 4200 if run.tier == "quick" else 20000
+    tie_max = 4200 if run.tier == "quick" else 9000
     for ln, out in zip(lines, outs):
         case = blk_e2e.Case(ln)
         if case.len > tie_max:
